@@ -751,6 +751,10 @@ func (req *Request) buildDistributedRequestData(subBackends []string) (requestDa
 				direction = "asc"
 			}
 			line = sortField.Name + " " + direction
+			if sortField.Args != "" {
+				// name of the custom variable
+				line = sortField.Name + " " + sortField.Args + " " + direction
+			}
 			sort = append(sort, line)
 		}
 		requestData["sort"] = sort
